@@ -407,6 +407,110 @@ def k4_toml_overrides(rep: Report) -> None:
         rep.candidate(key, f"override tables {tables}: module {m_} gets {got} instead of {want}", {"tables": tables}, replay)
 
 
+# --- K3: a boolean flag means the same on the command line, in an ini section and in a toml table
+def k3_flag_sources(rep: Report) -> None:
+    """For every boolean command-line flag --foo-bar of the real argparse table (read from
+    main.define_options on every run), the config key foo_bar with a symbolic boolean value w, given
+    as an ini string ('True'/'False'/'1'/'0'/'yes'/'no'...) or as a toml boolean, is pushed through
+    the real config_parser.parse_section.  Obligation: when the key is accepted, it sets the same
+    Options attribute as the flag, to the flag's value when w is true and to the opposite when w
+    is false (so `no_x = False`, `allow_x = True`, `show_x = ...` all invert consistently)."""
+    import configparser
+    import io
+
+    from mypy import config_parser as CP
+    from mypy.main import define_options
+    from mypy.options import Options
+
+    K = Kernel("mypy.config_parser", ["parse_section", "convert_to_boolean"], closure=False)
+    K.ns["convert_to_boolean"] = K["convert_to_boolean"]
+    rep.kernels_from(K)
+    fn = K["parse_section"]
+    parser = define_options()[0]
+    flags = []
+    for a in parser._actions:
+        if a.nargs == 0 and isinstance(a.const, bool) and not a.dest.startswith("special-opts:"):
+            for ostr in a.option_strings:
+                if ostr.startswith("--"):
+                    flags.append((ostr, a.dest, a.const))
+    rep.kernel("mypy.main.define_options[boolean flag table]", symx.hashlib.sha256(repr(sorted(flags)).encode()).hexdigest()[:16])
+    import re as _re
+
+    docs = open(os.path.join(os.environ.get("VERIF_REPO", "/repo"), "docs/source/config_file.rst"), encoding="utf-8").read()
+    documented = set(_re.findall(r"^\.\. confval:: (\w+)", docs, _re.M))
+    TRUE_WORDS = ["True", "1", "yes", "on", "true"]
+    FALSE_WORDS = ["False", "0", "no", "off", "false"]
+    ctx = Ctx(max_paths=2_000_000)
+    found: dict = {}
+    n = {"accepted": 0, "unrecognised": 0}
+    unrecognised: set = set()
+
+    def body(c: Ctx) -> None:
+        ostr, dest, const = flags[c.choose("flag", len(flags))]
+        key = ostr[2:].replace("-", "_")
+        w = bool(c.bool("config_value"))
+        source = c.choose("source", 2)  # 0 = ini section, 1 = toml table
+        if source == 0:
+            word = (TRUE_WORDS if w else FALSE_WORDS)[c.choose("spelling", 5)]
+            cp = configparser.RawConfigParser()
+            cp.read_string(f"[mypy]\n{key} = {word}\n")
+            section: Any = cp["mypy"]
+            types = CP.ini_config_types
+        else:
+            section = {key: w}
+            types = CP.toml_config_types
+        err = io.StringIO()
+        results, _ = fn("cfg: ", Options(), lambda: None, section, types, err)
+        results = {k: v for k, v in results.items() if k not in ("disable_error_code", "enable_error_code")}
+        if not results:
+            n["unrecognised"] += 1
+            unrecognised.add(key)
+            if key in documented:
+                # docs/source/config_file.rst documents this key: it is a supported way to give the setting
+                c.stats["assert_queries"] += 1
+                c.stats["refuted"] += 1
+                found.setdefault(f"documented config key is not accepted ({'ini' if source == 0 else 'toml'})", (ostr, key, w, source, {"stderr": err.getvalue().strip()[:200]}, {dest: const if w else (not const)}))
+            return
+        n["accepted"] += 1
+        want = {dest: const if w else (not const)}
+        c.stats["assert_queries"] += 1
+        if results == want:
+            c.stats["discharged"] += 1
+        else:
+            c.stats["refuted"] += 1
+            form = "no_" if key.startswith("no_") else ("allow_" if key.startswith("allow") else ("disallow_" if key.startswith("disallow") else ("show_" if key.startswith("show_") else "plain")))
+            found.setdefault(f"config key form '{form}' disagrees with the command-line flag of the same name ({'ini' if source == 0 else 'toml'})", (ostr, key, w, source, results, want))
+
+    ctx.explore(body)
+    rep.add_ctx("K3 boolean flags: command line vs ini vs toml", ctx, flags=len(flags), outcomes=dict(n), keys_not_accepted_in_config=sorted(unrecognised))
+    rep.twin("K3: some keys accepted", n["accepted"] > 0)
+    for key_, (ostr, key, w, source, got, want) in found.items():
+        rep.sample({"kernel": "parse_section", "class": key_, "flag": ostr, "key": key, "value": w, "got": {k: repr(v) for k, v in got.items()}, "want": want})
+
+        def replay(d: str, ostr: str = ostr, key: str = key, w: bool = w, source: int = source) -> tuple[bool, str]:
+            # the real command-line parser vs the real config-file parser, through process_options
+            from mypy.main import process_options
+
+            open(os.path.join(d, "x.py"), "w").close()
+            cfg = os.path.join(d, "mypy.ini" if source == 0 else "pyproject.toml")
+            with open(cfg, "w") as f:
+                f.write(f"[mypy]\n{key} = {w}\n" if source == 0 else f"[tool.mypy]\n{key} = {'true' if w else 'false'}\n")
+            err = io.StringIO()
+            try:
+                _, o_cfg = process_options(["--config-file", cfg, os.path.join(d, "x.py")], stderr=err, stdout=err)
+                inverse = None
+                _, o_flag = process_options(["--config-file", os.devnull, ostr, os.path.join(d, "x.py")], stderr=err, stdout=err)
+                _, o_none = process_options(["--config-file", os.devnull, os.path.join(d, "x.py")], stderr=err, stdout=err)
+            except SystemExit as e:
+                return False, f"process_options exited ({e}): {err.getvalue()[-300:]}"
+            dest = next(a.dest for a in define_options()[0]._actions if ostr in a.option_strings)
+            vf_, vc, vn = getattr(o_flag, dest), getattr(o_cfg, dest), getattr(o_none, dest)
+            want_ = vf_ if w else (not vf_)
+            return vc != want_, f"{ostr} sets {dest}={vf_} (default {vn}); config {key} = {w} sets {dest}={vc}, expected {want_}"
+
+        rep.candidate(key_, f"{ostr} vs config key {key} = {w}: parse_section gives {got}, expected {want}", {"flag": ostr, "value": w}, replay)
+
+
 def main(args: Any) -> int:
     rep = Report(PID, args.tier, "z3 regular-expression equivalence for the glob semantics (unbounded name length); symbolic execution (symx/z3) of the real per-module option resolution with solver-chosen section sets and symbolic option values; replay with real mypy.ini files")
     import mypy.build  # noqa: F401
@@ -423,6 +527,9 @@ def main(args: Any) -> int:
         k1_glob(rep, args.tier)
     if only is None or "K2" in only:
         k2_precedence(rep, args.tier)
+    if only is None or "K3" in only:
+        k3_flag_sources(rep)
+        rep.bounds.append("K3: every boolean flag of the real command-line table x config value true/false x ini (5 spellings each) / toml; one key per section")
     if only is None or "K4" in only:
         k4_toml_overrides(rep)
     return rep.finish()
